@@ -30,7 +30,10 @@ def install_abstractions(E):
         return (UVal(vals_f(I.to_u(trace), I.to_u(selection)), "ChoiceMap"),
                 UVal(grad_f(I.to_u(trace), I.to_u(selection), I.to_u(argdiffs)), "ChoiceMap"))
 
+    E._hmc_momenta_keys = []
+
     def sample_momenta(I, key, grads):
+        E._hmc_momenta_keys.append(I.to_u(key))          # (observed: the contracts read the momenta key off this call)
         m = mom_f(I.to_u(key), I.to_u(grads))
         return (UVal(m, "ChoiceMap"), SReal(mlp_f(m, E.z3.RealVal(1))))
 
@@ -275,7 +278,7 @@ def t_selection_gradient(E):
     E.refutable("hmc.selection_gradient", E.eq(vx, yv) if vx is not None else False)
 
 
-@task("hmc.edit", props=["C28"], functions=FUNCS)
+@task("hmc.edit", props=["C28", "C04"], functions=FUNCS)
 def t_hmc(E):
     z3, T = E.z3, E.I.T
     vals_f, grad_f, mom_f, mlp_f = install_abstractions(E)
@@ -330,7 +333,14 @@ def t_hmc(E):
         return
     loop = scans[0]
     split = E.ctx.fn("split", U, z3.IntSort(), z3.IntSort(), U)
+    from theory import keys as KY
+    # the keys are read off what the code computed (whichever halves of whichever split they are): the momenta draw from the
+    # initial carry, an iteration's update key from the trace that iteration produced; the derivation the current code uses
+    # is only the fallback when a term has another shape
     k_loop, k_mom = split(k.t, 2, 0), split(k.t, 2, 1)
+    if len(getattr(E, "_hmc_momenta_keys", [])) == 1:
+        k_mom = E._hmc_momenta_keys[0]
+    E.prove("C04.HMC.momenta_are_drawn_with_a_key_derived_from_the_given_key", KY.derived_from(E.I, k_mom, k.t), also=["C28"])
     adu, selu = E.I.to_u(ad), sel.t
     grad_at = lambda t: grad_f(t, selu, adu)
     # leafwise arithmetic on opaque trees: the same lambdas as in the source, applied by the real tree_map
@@ -359,7 +369,9 @@ def t_hmc(E):
         p_half = kick_(p_i, UVal(grad_at(tr_i.t), "ChoiceMap"))
         q_next = drift(q_i, p_half)
         req = update(E, q_next)
-        new_key = fold(k_loop, i + 1)
+        body_carry, _ = loop.step(loop.carry_at(i), i)           # (the real loop body once more, to read the update's key off it)
+        nk = KY.key_of(z3.simplify(E.I.to_u(body_carry[0])), "gf_edit_tr")
+        new_key = nk if nk is not None else fold(k_loop, i + 1)
         tr_next = T.edit_tr(model.t, new_key, tr_i.t, E.I.to_u(req), adu)
         q_read = vals_f(tr_next, selu)
         p_next = kick_(p_half, UVal(grad_at(tr_next), "ChoiceMap"))
